@@ -324,6 +324,21 @@ fn exec_op(ctx: &mut Ctx, tok: &str) -> String {
             ctx.dmd.step();
             "ok".into()
         }
+        "rq" => {
+            // rq:<steps>:<every>:<byte>  run <steps> instructions, the host sending <byte> on RS-232 every <every> steps
+            // (system cases only: not an operation of the model driver)
+            let n = a(1);
+            let every = a(2).max(1);
+            let b = a(3) as u8;
+            for i in 0..n {
+                if i % every == 0 {
+                    ctx.dmd.rs232_rx(b);
+                }
+                step_clock(ctx);
+                ctx.dmd.step();
+            }
+            "ok".into()
+        }
         "rn" => {
             // rn:<n>  Dmd::run(n): the clock advances once, then n instructions
             step_clock(ctx);
